@@ -19,7 +19,7 @@ RULE = ("exhaustive: every ordered pair of strings over {a,b} up to length 5 (qu
         "prefix+middle+suffix with shared affixes and repeated runs, plus a few 100-400 character pairs with little in common (running costs beyond 255). Oracle: reference LCS by dynamic programming; the "
         "script's from-side must spell a, its to-side b, kept characters are pairwise equal and their number equals "
         "LCS(a,b) (so removed=len(a)-LCS, inserted=len(b)-LCS), the same counts are read back from the ANSI rendering. "
-        "A sampled case may set the process-wide default printer to quiet (what --quiet selects) and may be preceded, in the same process, by one to three other string comparisons sharing its target, its source or neither (lengths 3-120); {a,b} up to length 4 / 6 is enumerated again under the quiet printer. "
+        "A blocks family builds 30-110 character strings from a few repeating blocks (the longest common block also occurs elsewhere). Four batches (60 / 600 pairs each plus all pairs over {a,b} up to length 3) are judged by the same oracle inside a child interpreter started with python -O (assertions stripped). A sampled case may set the process-wide default printer to quiet (what --quiet selects) and may be preceded, in the same process, by one to three other string comparisons sharing its target, its source or neither (lengths 3-120); {a,b} up to length 4 / 6 is enumerated again under the quiet printer. "
         "Non-trivial: 0 < LCS < min(len a, len b). Distinct by (a,b,flags).")
 ASSUMPTIONS = [
     "the 1-char/1-char special case (a single Match of cost 1) counts as one removed plus one inserted character",
@@ -72,10 +72,14 @@ def jobs(tier):
     for alpha, ml in en:
         for s in range(NSHARDS):
             js.append({'kind': 'enum', 'alpha': alpha, 'maxlen': ml, 'shard': s})
+    # the same oracle in a child interpreter started with -O (assertions stripped): 4 batches
+    for s in range(4):
+        js.append({'kind': 'optimized', 'n': 60 if tier == 'quick' else 600, 'shard': s})
     for s in range(NSHARDS):
         js.append({'kind': 'sample', 'n': samp, 'shard': s})
         js.append({'kind': 'long', 'n': 3 if tier == 'quick' else 40, 'shard': s})
         js.append({'kind': 'history', 'n': 6 if tier == 'quick' else 120, 'shard': s})
+        js.append({'kind': 'blocks', 'n': 12 if tier == 'quick' else 250, 'shard': s})
         # the same exhaustive space under the quiet printer (what --quiet / a non-terminal run selects)
         js.append({'kind': 'enum', 'alpha': 'ab', 'maxlen': 4 if tier == 'quick' else 6, 'shard': s, 'quiet': True})
     return js
@@ -139,6 +143,23 @@ def history_pairs(draw):
 
 
 @st.composite
+def block_pairs(draw):
+    """30-100 character strings assembled from a few blocks that repeat: the longest common block also occurs elsewhere, so
+    anchoring on it (or on any greedy choice) is not necessarily part of a minimal script"""
+    alpha = draw(st.sampled_from(['abcdefgh', 'helo wrd,;:', 'ab']))
+    blk = st.text(alphabet=alpha, min_size=6, max_size=22)
+    B, X, Y = draw(blk), draw(st.text(alphabet=alpha, min_size=4, max_size=14)), draw(st.text(alphabet=alpha, min_size=0, max_size=8))
+    X2 = _edit_string(draw, X, alpha, draw(st.integers(1, 3)))
+    parts = {'B': B, 'X': X, 'x': X2, 'Y': Y}
+    shapes = [('XB', 'BxB'), ('BXB', 'xB'), ('BYB', 'BB'), ('XBY', 'BxBY'), ('BXBY', 'YBxB'), ('BB', 'BXB'), ('XBXB', 'BxBx')]
+    sa, sb = draw(st.sampled_from(shapes))
+    a, b = ''.join(parts[c] for c in sa), ''.join(parts[c] for c in sb)
+    if draw(st.booleans()):
+        a, b = b, a
+    return {'a': a[:110], 'b': b[:110]}
+
+
+@st.composite
 def long_pairs(draw):
     """strings of 100-260 characters with little in common (no shared prefix/suffix to trim), so that running costs pass
     255, 511, ... inside the matrix"""
@@ -161,6 +182,11 @@ def run_job(job, seed, sink):
     if job['kind'] == 'history':
         hyp_drive(history_pairs(), job['n'], seed, sink)
         return
+    if job['kind'] == 'blocks':
+        hyp_drive(block_pairs(), job['n'], seed, sink)
+        return
+    if job['kind'] == 'optimized':
+        return run_optimized(job, seed, sink)
     if job['kind'] == 'enum':
         i = 0
         for a in all_strings(job['alpha'], job['maxlen']):
@@ -170,6 +196,41 @@ def run_job(job, seed, sink):
                 i += 1
     else:
         hyp_drive(sampled_pairs(), job['n'], seed, sink)
+
+
+def run_optimized(job, seed, sink):
+    """A batch of pairs is judged by this module's own check() inside `python -O` (assertions stripped, __debug__ False); the
+    batch comes back as one case per pair, carrying the child's verdict."""
+    import json
+    import os
+    import subprocess
+    import sys
+    from ..core import REPO, VERIF, scratch_dir
+    batch = []
+    hyp_drive(sampled_pairs(), job['n'], seed, lambda c: batch.append({'a': c['a'][:14], 'b': c['b'][:14]}))
+    batch += [{'a': x, 'b': y} for x in all_strings('ab', 3) for y in all_strings('ab', 3)][job['shard']::4]
+    path = os.path.join(scratch_dir(), f"c11opt{job['shard']}.json")
+    with open(path, 'w') as f:
+        json.dump(batch, f)
+    env = dict(os.environ)
+    env['PYTHONPATH'] = os.pathsep.join([REPO, VERIF, os.path.join(VERIF, '.deps')])
+    env.pop('PYTHONOPTIMIZE', None)
+    try:
+        p = subprocess.run([sys.executable, '-O', '-m', 'vf.c11child', path], env=env, cwd=VERIF, capture_output=True, timeout=900)
+        res = json.loads(p.stdout.decode('utf-8'))
+    except Exception as e:
+        sink({'a': '', 'b': '', 'child_error': f"{type(e).__name__}: {str(e)[:120]}"})
+        return
+    finally:
+        try:
+            os.unlink(path)
+        except OSError:
+            pass
+    if res.get('optimize', 0) < 1:
+        sink({'a': '', 'b': '', 'child_error': 'child did not run with -O'})
+        return
+    for case, fails in zip(batch, res['results']):
+        sink(dict(case, under_O=fails))
 
 
 def script_counts(a, b):
@@ -221,6 +282,19 @@ def check(case):
 
 def _check(case):
     out = Outcome()
+    if case.get('child_error'):
+        out.skipped = 'python -O child unavailable: ' + case['child_error']
+        return out
+    if case.get('under_O') is not None:
+        # verdict computed by this same function inside `python -O`; replaying such a case re-runs it here as well
+        out.label('judged-under-python-O')
+        for k, d in case['under_O']:
+            out.fail('under-python-O:' + k, f"(python -O) {d}")
+        o2 = _check({'a': case['a'], 'b': case['b']})
+        out.nontrivial = o2.nontrivial
+        for k, d in o2.failures:
+            out.fail(k, d)
+        return out
     a, b = case['a'], case['b']
     if not isinstance(a, str) or not isinstance(b, str):
         out.skipped = 'not-strings'
